@@ -49,6 +49,15 @@ Theorem C03_mrp_timeout_isolated : forall pre w k m, m_fresh pre ->
 Proof. exact timeout_isolated. Qed.
 Print Assumptions C03_mrp_timeout_isolated.
 
+(* the same after a cancellation (pyatv fix 581a057): a request abandoned by its caller leaves
+   no entry behind, so its late answer - and for "type_<n>" keys every later message of that
+   type - is dispatched to the listeners instead of being swallowed. *)
+Theorem C03_mrp_cancel_isolated : forall pre w k m, m_fresh pre ->
+  In (MReq w k) pre -> In (MCancelled w) (outs mstep m_init pre) -> mkey_of m = k ->
+  snd (mstep (final mstep m_init pre) (MMsg m)) = [MListen (m_type m) (m_tag m)].
+Proof. exact cancel_isolated. Qed.
+Print Assumptions C03_mrp_cancel_isolated.
+
 (* every request ends at most once (so nothing is handed to it after it timed out) *)
 Theorem C03_mrp_outcome_once : forall h w, m_fresh h ->
   length (filter (m_mentionsb w) (outs mstep m_init h)) <= 1.
@@ -195,8 +204,8 @@ Print Assumptions C03_rtsp_error_refuted.
 (* ========================================================= non-vacuity examples *)
 Example C03_ex_mrp_fresh :
   let h := [MReq 0 (KId 7); MReq 1 (KType 34); MMsg (MkMsg None 34 5); MMsg (MkMsg (Some 7%N) 2 6);
-            MWake 1; MTimeout 0; MMsg (MkMsg (Some 7%N) 2 8)] in
-  m_fresh h /\ outs mstep m_init h = [MDeliver 1 (Some 5%N); MTimeoutErr 0; MListen 2 8].
+            MWake 1; MTimeout 0; MMsg (MkMsg (Some 7%N) 2 8); MReq 2 (KType 2); MCancel 2; MMsg (MkMsg None 2 9)] in
+  m_fresh h /\ outs mstep m_init h = [MDeliver 1 (Some 5%N); MTimeoutErr 0; MListen 2 8; MCancelled 2; MListen 2 9].
 Proof. split; [split; repeat constructor; simpl; intuition discriminate|reflexivity]. Qed.
 
 Example C03_ex_http_fifo :
